@@ -5,6 +5,7 @@ package gosym
 
 import (
 	"fmt"
+	"net"
 	"go/token"
 	"go/types"
 	"reflect"
@@ -148,6 +149,45 @@ func (i *interpreter) fromReflect(o reflect.Value, name string) value {
 		return native{o.Interface()}
 	}
 	panic(unsupported(fmt.Sprintf("result %v of native function %s", o.Type(), name)))
+}
+
+// ipnetValue builds a *net.IPNet interpreter value.
+func (i *interpreter) ipnetValue(n *net.IPNet) value {
+	pkg := i.prog.ImportedPackage("net")
+	if pkg == nil {
+		panic(unsupported("net package not loaded"))
+	}
+	t := pkg.Type("IPNet").Type()
+	cell := zero(t)
+	st := cell.(structure)
+	st[0] = fromBytes([]byte(n.IP))
+	st[1] = fromBytes([]byte(n.Mask))
+	return &cell
+}
+
+func init() {
+	register(map[string]externalFn{
+		"net.ParseIP": func(fr *frame, a []value) value {
+			return fromBytes([]byte(net.ParseIP(a[0].(string))))
+		},
+		"net.ParseCIDR": func(fr *frame, a []value) value {
+			ip, n, err := net.ParseCIDR(a[0].(string))
+			if err != nil {
+				return tuple{[]value(nil), (*value)(nil), fr.i.newError(err.Error())}
+			}
+			return tuple{fromBytes([]byte(ip)), fr.i.ipnetValue(n), iface{}}
+		},
+		"net.SplitHostPort": func(fr *frame, a []value) value {
+			h, p, err := net.SplitHostPort(a[0].(string))
+			if err != nil {
+				return tuple{h, p, fr.i.newError(err.Error())}
+			}
+			return tuple{h, p, iface{}}
+		},
+		"net.JoinHostPort": func(fr *frame, a []value) value {
+			return net.JoinHostPort(a[0].(string), a[1].(string))
+		},
+	})
 }
 
 func stripTypeArgs(s string) string {
